@@ -34,6 +34,11 @@ impl ColDef {
         self.constraint = Some(Constraint::PrimaryKey);
         self
     }
+    /// declared FOREIGN KEY (says nothing about uniqueness)
+    pub fn fk(mut self) -> ColDef {
+        self.constraint = Some(Constraint::ForeignKey);
+        self
+    }
     pub fn refs(mut self, t: &str, c: &str) -> ColDef {
         self.references = Some((t.to_string(), c.to_string()));
         self
@@ -328,7 +333,8 @@ pub fn gen_generic(r: &mut Rng, max_rows: usize) -> Catalog {
         });
         if ti > 0 {
             let prev = format!("t{}", r.usize(ti));
-            cols.push(ColDef::new("ref", opt(r, DataType::integer_interval(1, 200), 15)).refs(&prev, "id"));
+            let c = ColDef::new("ref", opt(r, DataType::integer_interval(1, 200), 15)).refs(&prev, "id");
+            cols.push(if r.bool() { c.fk() } else { c });
         }
         let ncols = 2 + r.usize(4);
         let names = ["a", "b", "c", "d", "e", "f"];
